@@ -59,6 +59,7 @@ class CohGen:
             class_enum_default=(target == 'matlab'),    # D40 (pybind): default value of the class's own enum type
             typedefs=True,
             serialize_p=0.0,            # probability that a class declares the serialize() marker
+            ref_returns=True,           # class objects returned by reference / const reference
             enum_namesakes=0.3,         # class-scoped enums of different classes sharing one simple name
             split_overloads=False,      # D50 (matlab): overloads of a free function in two blocks of one namespace
             reopen_ns=0.25,             # a namespace written as two adjacent blocks (D6, repaired)
@@ -211,6 +212,9 @@ class CohGen:
             c, t = r.choice(cs)
             if r.random() < 0.5 and self.f['shared_ptr']:
                 return S.T(t.name, t.ns, t.args, False, '*')
+            if c['copyable'] and not in_pair and self.f['ref_returns'] and r.random() < 0.35:
+                # returned by (const) reference: the wrappers hand a copy to the caller
+                return S.T(t.name, t.ns, t.args, r.random() < 0.5, '&')
             if c['copyable']:
                 return t
             return S.T(t.name, t.ns, t.args, False, '*')
